@@ -23,6 +23,9 @@ EXPLANATION = (
     " R17.4 covers the reflected operator as well: for string + path, with the path's transform the identity"
     ' the appended segments derive from the path; otherwise they derive from abs(path) / d() - conditional'
     ' expressions are resolved by the scenario.'
+    ' R17.5: `path + b` works on copy(path) = Path(path), which takes over the values dictionary including a'
+    " `d` text; the constructor's parse of values[d] must be guarded by a marker read from values, and the"
+    ' guarded block must set it.'
 )
 TECHNIQUE = (
     "static analysis (no execution): effect analysis (which attributes the lexer stores and the builders read); cursor-independence lint of the dispatch; operator type-dispatch following for += / +"
